@@ -221,8 +221,12 @@ def random_project(rng):
         empty = rng.random() < 0.25 and i > 0
         defs = [] if empty else rand_defs(rng, ids, rng.randrange(0, 6), allow_sp=(i == 0))
         if i == 0 and rng.random() < 0.3:
-            defs = [assign(ids, var("RSP"), B("IntSub", V("RSP"), C(rng.choice([8, 16, 0x18]), 8))),
-                    assign(ids, var("RSP"), B("IntAnd", V("RSP"), C(rng.choice([0xFFFFFFFFFFFFFFF0, 0xFFFFFFFFFFFFFFF8]), 8)))] + defs
+            pre = [assign(ids, var("RSP"), B("IntSub", V("RSP"), C(rng.choice([8, 16, 0x18]), 8)))]
+            if rng.random() < 0.25:
+                # variable-size allocation before the alignment (alloca): the pass must give up on the function
+                pre.append(assign(ids, var("RSP"), B("IntSub", V("RSP"), V(rng.choice(["RAX", "RCX"])))))
+                pre.append(assign(ids, var("RBX"), B("IntAdd", V("RBX"), C(1))))
+            defs = pre + [assign(ids, var("RSP"), B("IntAnd", V("RSP"), C(rng.choice([0xFFFFFFFFFFFFFFF0, 0xFFFFFFFFFFFFFFF8]), 8)))] + defs
 
         def fwd():
             if i + 1 < n and rng.random() < 0.9:
@@ -230,6 +234,7 @@ def random_project(rng):
             return rng.choice(tids)
 
         r = rng.random()
+        ijt_here = []
         if i == n - 1 or r < 0.12:
             k = rng.random()
             if k < 0.7:
@@ -240,13 +245,18 @@ def random_project(rng):
                 jm = [jmp(ids, "branchind", target=rand_expr(rng, 8, 1, R8, FLAGS))]
             else:
                 jm = []
+            ijt_here = []
         elif r < 0.5:
             c = shared_cond if rng.random() < 0.6 else rand_cond(rng)
             if rng.random() < 0.2:
                 c = U("BoolNegate", c)
             jm = [jmp(ids, "cbranch", target=fwd(), cond=c), jmp(ids, "branch", target=fwd())]
-        elif r < 0.75:
+        elif r < 0.72:
             jm = [jmp(ids, "branch", target=fwd())]
+        elif r < 0.78:
+            # indirect jump with target hints (switch tables): the CFG gets one edge per hint
+            jm = [jmp(ids, "branchind", target=rand_expr(rng, 8, 1, R8, FLAGS))]
+            ijt_here = sorted(set(fwd() for _ in range(rng.randrange(1, 3))))
         else:
             k = rng.random()
             ret = fwd()
@@ -254,11 +264,16 @@ def random_project(rng):
                 jm = [jmp(ids, "call", target="ext_malloc", ret=ret)]
             elif k < 0.6:
                 jm = [jmp(ids, "call", target="sub_g", ret=ret)]
-            elif k < 0.8:
+            elif k < 0.7:
                 jm = [jmp(ids, "callind", target=rand_expr(rng, 8, 1, R8, FLAGS), ret=ret)]
+            elif k < 0.8:
+                # indirect call through a temporary computed in this block (as lifted code does), whose inputs are overwritten before the call
+                src = rng.choice(["RBX", "RCX", "RDX"])
+                defs = defs + [assign(ids, var("$U7", 8, True), B("IntAdd", V(src), C(8))), assign(ids, var(src), C(0x1000))]
+                jm = [jmp(ids, "callind", target=V("$U7", 8, True), ret=ret)]
             else:
                 jm = [jmp(ids, "callother", desc="syscall", ret=ret)]
-        blocks.append(blk(t, defs, jm))
+        blocks.append(blk(t, defs, jm, ijt_here))
     return project(blocks, [callee_sub(ids)])
 
 
@@ -387,6 +402,34 @@ def templates():
         if extra == "empty_first":
             blocks = [blk("blk_0", [], [jmp(ids, "branch", target="blk_1")])] + blocks
         progs.append(("sp_mask", project(blocks, [callee_sub(ids)])))
+    # join block reached over a conditional AND an unconditional edge, followed by an empty block testing the same condition again
+    for cond, touch in itertools.product([V("ZF", 1), B("IntEqual", V("RAX"), C(0)), U("BoolNegate", V("CF", 1))], ["other", "input"]):
+        ids = Ids()
+        tdefs = [assign(ids, var("RCX"), B("IntAdd", V("RCX"), C(2)))] if touch == "other" else [assign(ids, var("RAX"), B("IntAdd", V("RAX"), C(2))), assign(ids, var("ZF", 1), B("IntEqual", V("RCX"), C(0))), assign(ids, var("CF", 1), V("ZF", 1))]
+        blocks = [blk("blk_a", [assign(ids, var("RSI"), C(0x40))], [jmp(ids, "cbranch", target="blk_t", cond=cond), jmp(ids, "branch", target="blk_f")]),
+                  blk("blk_f", [assign(ids, var("RBX"), B("IntAdd", V("RBX"), C(1)))], [jmp(ids, "branch", target="blk_t")]),
+                  blk("blk_t", tdefs, [jmp(ids, "branch", target="blk_e")]),
+                  blk("blk_e", [], [jmp(ids, "cbranch", target="blk_x", cond=cond), jmp(ids, "branch", target="blk_y")]),
+                  blk("blk_x", [assign(ids, var("RDX"), C(1))], [jmp(ids, "return", target=V("RSI"))]),
+                  blk("blk_y", [assign(ids, var("RDX"), C(2))], [jmp(ids, "return", target=V("RSI"))])]
+        progs.append(("join_chain", project(blocks, [callee_sub(ids)])))
+    # stack pointer: variable-size allocation before the alignment mask
+    for reg, mask_c in itertools.product(["RAX", "RCX"], [0xFFFFFFFFFFFFFFF0, 0xFFFFFFFFFFFFFFF8]):
+        ids = Ids()
+        defs = [assign(ids, var("RSP"), B("IntSub", V("RSP"), V(reg))), assign(ids, var("RBX"), B("IntAdd", V("RBX"), C(1))),
+                assign(ids, var("RSP"), B("IntAnd", V("RSP"), C(mask_c))), store(ids, V("RSP"), V("RDI"))]
+        progs.append(("sp_alloca", project([blk("blk_0", defs, [jmp(ids, "return", target=V("RSI"))])], [callee_sub(ids)])))
+    # indirect calls / jumps / returns through temporaries whose inputs are overwritten before the jump
+    for kind in ["callind", "callind_load", "branchind"]:
+        ids = Ids()
+        t = var("$U1", 8, True)
+        if kind == "callind_load":
+            defs = [load(ids, t, V("RDI")), assign(ids, t, B("IntAdd", V("$U1", 8, True), C(8)))]
+        else:
+            defs = [assign(ids, t, B("IntAdd", V("RBX"), C(8))), assign(ids, var("RBX"), C(0x1000))]
+        j = jmp(ids, "branchind", target=V("$U1", 8, True)) if kind == "branchind" else jmp(ids, "callind", target=V("$U1", 8, True), ret="blk_1")
+        blocks = [blk("blk_0", defs, [j]), blk("blk_1", [assign(ids, var("RCX"), V("RAX"))], [jmp(ids, "return", target=V("RSI"))])]
+        progs.append(("temp_target", project(blocks, [callee_sub(ids)])))
     # calls: values must not be propagated across calls, registers stay alive at calls
     for kind in ["extern", "internal", "indirect", "other", "noreturn"]:
         ids = Ids()
@@ -435,8 +478,16 @@ def random_pi_project(rng):
                                                CAST("IntZExt", 8, SUBP(0, 1, V(rng.choice(PI_REGS))))]))
         if r < 0.7:
             return assign(ids, var(rng.choice(["ZF", "CF", "SF"]), 1), cmp_expr())
-        if r < 0.83:
+        if r < 0.76:
             return store(ids, stack_addr(), rng.choice([V(rng.choice(PI_REGS)), small()]))
+        if r < 0.83:
+            # narrower store into (possibly the upper half of) an 8-byte stack cell
+            a = stack_addr()
+            if rng.random() < 0.6:
+                a = B("IntAdd", a, C(rng.choice([4, 4, 2, 1])))
+            size = rng.choice([4, 4, 2, 1])
+            val = rng.choice([SUBP(0, size, V(rng.choice(PI_REGS))), C(rng.choice([0x33333333, 0, 0xFF, 0x80000000]), size)])
+            return store(ids, a, val)
         if r < 0.96:
             return load(ids, dst, stack_addr())
         # access through an absolute address around the NULL page boundary (the analysis treats (-1024, 1024) as NULL dereferences)
